@@ -1691,18 +1691,21 @@ MANIFEST = {
     "category": "proof",
     "level": "proof for control flow given oracle answers; residuals sampled",
     "design_ref": "DESIGN.md 2.16",
-    "text": "Lean 4 theorems (61) over executable models, as coded, of Constraint::project / isSatisfied, ProjectedStateSpace::"
+    "text": "Lean 4 theorems (74) over executable models, as coded, of Constraint::project / isSatisfied, ProjectedStateSpace::"
             "discreteGeodesic, ConstrainedStateSpace::interpolate / geodesicInterpolate, ConstrainedMotionValidator::checkMotion (both "
             "forms, after a7ee00eca), ProjectedStateSampler; AtlasStateSpace::discreteGeodesic, TangentBundleStateSpace::"
             "discreteGeodesic (after the F175 repair 2365cedab) / project / geodesicInterpolate (after the F74 fix 8af6fc6c7), "
             "AtlasStateSampler (the 32-bit `tries` counter and its fallbacks); AtlasChart's polytope bookkeeping (Halfspace, inPolytope, "
             "borderCheck, generateHalfspace, owningChart's selection) and AtlasChart::psi with tolerance / maxIterations read at call "
-            "time.  Constraint::function, the Newton steps, isValid and every chart operation are arbitrary stateful oracles (every "
+            "time; the glue of ConstrainedSpaceInformation.h: getMotionStates (both classes), TangentBundleSpaceInformation::checkMotion "
+            "with lastValid (as coded and with the proposed F460 repair), ConstrainedValidStateSampler.  Constraint::function, the Newton steps, isValid and every chart operation are arbitrary stateful oracles (every "
             "answer stream, by induction, no bound on the traversal): successful project / psi => the residual test with the tolerance "
             "of THAT call passed on the returned state; every stored geodesic state (all three spaces) is a successful projection "
             "(Projected, Atlas) and was answered valid; step bound; success => within delta; geodesicInterpolate / interpolate return "
             "stored (TangentBundle: re-projected or `from`) states with all indices in range; checkMotion iff (end state validated); "
-            "lastValid fraction in [0,1]; atlas samplers return a successful psi output or the fallback state; halfspace bisects / pair "
+            "lastValid fraction in [0,1]; getMotionStates returns traversal states / s1 / s2 only, TangentBundle's only successful and "
+            "valid projections; the valid-state sampler accepts only states answered valid and satisfied; a residual that compares "
+            "false both ways (NaN) makes project / psi answer false at once; atlas samplers return a successful psi output or the fallback state; halfspace bisects / pair "
             "leaves no crack (flat transition) / inPolytope antitone under generateHalfspace (exact, every ordered field).  Tied to the "
             "code by replaying in the compiled model the oracle answers recorded from the real library (virtual overrides + symbol "
             "interposition of the non-virtual chart methods): bit-identical geodesics, picks, verdicts, lastValid, sampler results for "
@@ -1713,7 +1716,8 @@ MANIFEST = {
             "harness incl. the interposition (fails loudly if calls were inlined).  Newton convergence, Eigen's SVD/LU and the chart "
             "maps psi/phi/psiInverse are oracles: that real samplers / geodesics land within tolerance is sampled, not proved.  Known "
             "findings: F10 (ProjectedStateSampler discards project()'s verdict), F71 (all three samplers enforce bounds after "
-            "projecting).  Fixed in /repo and followed by the model: F74, F175, checkMotion end-state validation.  Observation (no C16 "
+            "projecting), F460 (TangentBundleSpaceInformation::checkMotion leaves the iterate of a failed projection in "
+            "lastValid.first; KPIECE1 makes it a path vertex).  Fixed in /repo and followed by the model: F74, F175, checkMotion end-state validation.  Observation (no C16 "
             "oracle): Halfspace::distanceToPoint mis-parenthesised, expandToInclude includes the point only if |u|^2 >= 1 "
             "(kernel-checked).",
     "technique": "Lean 4 proof (induction over the traversal for every oracle answer stream; ordered-field algebra for the chart "
